@@ -52,9 +52,17 @@ def run_bin(binpath, lines, timeout=900, env=None, args=()):
     e.setdefault("OCAMLRUNPARAM", "s=4M")
     if env:
         e.update(env)
+    def big_stack():
+        # the extracted list functions are not tail recursive: give the model driver the largest stack allowed
+        import resource
+        soft, hard = resource.getrlimit(resource.RLIMIT_STACK)
+        try:
+            resource.setrlimit(resource.RLIMIT_STACK, (hard, hard))
+        except Exception:
+            pass
     try:
         p = subprocess.run([binpath] + list(args), input=("\n".join(lines) + "\n").encode(), stdout=subprocess.PIPE,
-                           stderr=subprocess.PIPE, timeout=timeout, env=e)
+                           stderr=subprocess.PIPE, timeout=timeout, env=e, preexec_fn=big_stack)
     except subprocess.TimeoutExpired as ex:
         return 124, (ex.stdout or b"").decode("ascii", "replace").splitlines(), "timeout"
     return p.returncode, p.stdout.decode("ascii", "replace").splitlines(), p.stderr.decode("utf-8", "replace")[-2000:]
@@ -158,6 +166,27 @@ def gen_reader_cases(ctx, consts):
         tail = u16("tail</r>\r\n", enc) if enc != "latin1" else b"tail</r>\r\n"
         parts = [(padb, npad), cb, tail]
         add("slide-%s-%s" % (tname, cname), enc, ver, low, rng.choice(chunkings), parts, ops)
+    # names / NCNames / QNames with supplementary characters (first, middle, last) in UTF-16 LE/BE and UCS-4 LE/BE: every
+    # UTF-16 unit of the name on the last / first position of the character buffer (a surrogate pair split by the refill)
+    supp_names = [("mid", "attr\U00020000y"), ("first", "\U00020000ttr"), ("last", "att\U00020000"), ("two", "a\U00020000\U00020001b"),
+                  ("qname", "p\U00020000x:l\U00020001z")]
+    name_scripts = [["C", "P", "g", "C", "P", "G"], ["Q", "P", "g", "G"], ["N", "P", "g", "T", "P", "G"]]
+    kk = 0
+    for sname, stext in supp_names:
+        nunits = len(stext.encode("utf-16-le")) // 2
+        for ei, enc in enumerate(("utf16le", "utf16be", "ucs4le", "ucs4be")):
+            if not thorough and (ei + len(sname)) % 2:
+                continue
+            codec = {"utf16le": "utf-16-le", "utf16be": "utf-16-be", "ucs4le": "utf-32-le", "ucs4be": "utf-32-be"}[enc]
+            padb = "x".encode(codec)
+            for T in ((CB,) if not thorough else (CB, 2 * CB)):
+                for i in range(nunits):
+                    for d in ((-1, 0) if not thorough else (-2, -1, 0, 1)):
+                        kk += 1
+                        npad = T + d - i
+                        parts = [(padb, npad), (stext + "=q tail").encode(codec)]
+                        add("suppname-%s" % sname, enc, "10", 100, rng.choice(["0", "4096", "1:16384"]), parts,
+                            ["G%d" % npad] + name_scripts[kk % 3])
     # random byte strings (ill-formed sequences included) on small documents, all encodings, many chunkings
     for _ in range(1200 if not thorough else 20000):
         enc = rng.choice(encs)
@@ -344,6 +373,65 @@ def ref_offsets(tpl, consts):
                 if n >= 0:
                     pads.add(n)
     return sorted(pads)
+
+
+ICU_ENCODINGS = [("EUC-JP", "euc_jp", "\u65e5\u672c\u8a9e\u306e\u30c6\u30ad\u30b9\u30c8"), ("Shift_JIS", "shift_jis", "\u65e5\u672c\u8a9e\u306e\u30c6\u30ad\u30b9\u30c8"),
+                 ("GB2312", "gb2312", "\u4e2d\u6587\u6587\u672c\u6d4b\u8bd5"), ("Big5", "big5", "\u4e2d\u6587\u6587\u672c\u6e2c\u8a66"),
+                 ("EUC-KR", "euc_kr", "\ud55c\uad6d\uc5b4\ud14d\uc2a4\ud2b8")]
+
+NAME_TEMPLATES = [
+    # (name, lead, construct, tail, namespaces)
+    ("attr-mid", "<e ", "attr\U00020000y", '="1"/>', "0"),
+    ("attr-mid-ns", "<e ", "attr\U00020000y", '="1"/>', "1"),
+    ("attr-first", "<e ", "\U00020000ttr", '="1"/>', "1"),
+    ("attr-last", "<e ", "att\U00020000", '="1"/>', "0"),
+    ("elem-mid", "<", "el\U00020000m", "/>", "1"),
+    ("elem-two", "<", "e\U00020000\U00020001m", ">t</e\U00020000\U00020001m>", "0"),
+    ("qname-elem", "<", "p\U00020000x:l\U00020001z", ' xmlns:p\U00020000x="u"/>', "1"),
+    ("qname-attr", '<e xmlns:p="u" ', "p:at\U00020000r", '="v"/>', "1"),
+    ("endtag", "<el\U00020000m>t</", "el\U00020000m", ">", "0"),
+]
+
+
+def name_variant(tpl, codec, npad):
+    name, lead, cons, tail, ns = tpl
+    prolog = "<?xml version='1.0' encoding='UCS-4'?>" if codec.startswith("utf-32") else "\ufeff"
+    head = (prolog + "<r>").encode(codec)
+    return spec_of([head, ("x".encode(codec), npad), ("\n" + lead + cons + tail + "</r>").encode(codec)])
+
+
+def name_offsets(tpl, consts, thorough):
+    name, lead, cons, tail, ns = tpl
+    CB = consts["kCharBufSize"]
+    u = lambda t: len(t.encode("utf-16-le")) // 2
+    before = 3 + 1 + u(lead)
+    pads = set()
+    for T in (CB, 2 * CB):
+        for i in range(u(cons)):
+            for d in ((-1, 0) if not thorough else (-2, -1, 0, 1)):
+                n = T + d - before - i
+                if n >= 0:
+                    pads.add(n)
+    return sorted(pads)
+
+
+def icu_variant(encname, codec, run, npad):
+    decl = "<?xml version='1.0' encoding='%s'?><r>" % encname
+    return spec_of([decl.encode("ascii"), (b"x", npad), b"\n" + (run * 6).encode(codec) + b"</r>"]), len(decl)
+
+
+def esc_py(t):
+    out = ""
+    for ch in t:
+        o = ord(ch)
+        if 0x20 <= o < 0x7F and ch not in "\\|":
+            out += ch
+        elif o < 0x10000:
+            out += "\\u%04X" % o
+        else:
+            o -= 0x10000
+            out += "\\u%04X\\u%04X" % (0xD800 + (o >> 10), 0xDC00 + (o & 1023))
+    return out
 
 
 def norm_dump(line):
@@ -834,6 +922,106 @@ def run(ctx):
         ctx.coverage["reference_sliding"] = {"templates": len(rgroups), "parses": len(rlines), "differing": nref_bad,
                                              "baselines_without_errors": nclean}
     ctx.note("reference sliding: %d templates, %d parses, %d differing, %.1fs" % (len(rgroups), len(rlines), nref_bad, time.time() - t3))
+
+    # ---- 3c. names with supplementary characters in UTF-16 LE/BE and UCS-4 (every UTF-16 unit of the name on the last /
+    #          first slot of the character buffer), and multi-byte text in ICU-provided encodings straddling the raw-buffer
+    #          block ends: padding-metamorphic (equal to the 5-padding variant) + chunked + expected text
+    t3c = time.time()
+    alines = []
+    agroups = []      # (label, [(npad, idx_mem, idx_chunk)], expected substring or None)
+    thorough_ = ctx.tier == "thorough"
+    codecs = ["utf-16-le", "utf-16-be", "utf-32-be", "utf-32-le"]
+    for ti, tpl in enumerate(NAME_TEMPLATES):
+        for ci, codec in enumerate(codecs):
+            if not thorough_ and (ti + ci) % 2:
+                continue
+            cfga = ctx.rng.choice(["I", "W", "D", "S"]) + tpl[4] + "f"
+            ents = []
+            for k, n in enumerate([5] + name_offsets(tpl, consts, thorough_)):
+                im = len(alines)
+                alines.append("doc %s mem 0 %s" % (cfga, name_variant(tpl, codec, n)))
+                ic = None
+                if k % 4 == 1:
+                    ic = len(alines)
+                    alines.append("doc %s chunk %s %s" % (cfga, ctx.rng.choice(["4096", "1:16384", "16383", "7.1.4096"]), name_variant(tpl, codec, n)))
+                ents.append((n, im, ic))
+            agroups.append(("name-%s-%s" % (tpl[0], codec), ents, esc_py(tpl[2])))
+    RBc2, LWc2 = consts["kRawBufSize"], consts["lowWaterDefault"]
+    # which ICU encodings exist in this build: a short document must parse cleanly
+    probe = ["doc I1 mem 0 " + icu_variant(en, cd, run, 5)[0] for en, cd, run in ICU_ENCODINGS]
+    _, pout, _ = run_bin(xh, probe, env=henv, timeout=120)
+    icu_ok = [ICU_ENCODINGS[i] for i in range(len(ICU_ENCODINGS)) if i < len(pout) and pout[i].split()[3:5] == ["-", "-"]]
+    for en, cd, run in icu_ok:
+        _, dl = icu_variant(en, cd, run, 0)
+        ents = []
+        pads = [5]
+        for T in (RBc2, 2 * RBc2, RBc2 - LWc2):
+            for k in range(1, 5 if not thorough_ else 9):
+                pads.append(T - dl - 1 - k)
+        for k, n in enumerate(pads):
+            im = len(alines)
+            alines.append("doc I1f mem 0 " + icu_variant(en, cd, run, n)[0])
+            ic = None
+            if k % 4 == 1:
+                ic = len(alines)
+                alines.append("doc I1f chunk %s %s" % (ctx.rng.choice(["4096", "1:49152", "49151", "3.1.4096"]), icu_variant(en, cd, run, n)[0]))
+            ents.append((n, im, ic))
+        agroups.append(("icu-" + en, ents, esc_py(run * 6)))
+    rc, aout, aerr = run_bin(xh, alines, env=henv, timeout=900)
+    nal_bad = 0
+    if rc != 0 or len(aout) != len(alines):
+        ctx.violation("harness-crash", {"what": "document-level harness crashed on the name / ICU alignment documents", "rc": rc,
+                                        "stderr": aerr, "request": alines[len(aout)] if len(aout) < len(alines) else None})
+    else:
+        for label, ents, expect in agroups:
+            base = norm_dump(aout[ents[0][1]])
+            if expect not in base or aout[ents[0][1]].split()[4] != "-":
+                nal_bad += 1
+                ctx.violation("alignment-baseline", {"requests": [alines[ents[0][1]]], "template": label, "dump": base[:600],
+                                                     "expected_text": expect, "what": "the baseline document does not report the "
+                                                     "expected name / text or reports errors"})
+                continue
+            for n, im, ic in ents:
+                ctx.count()
+                ctx.distinct((label, n))
+                if norm_dump(aout[im]) != base:
+                    nal_bad += 1
+                    if nal_bad <= 4:
+                        ctx.violation("alignment-dependence",
+                                      {"requests": [alines[ents[0][1]], alines[im]], "template": label, "padding": n,
+                                       "baseline": base[-500:], "padded": norm_dump(aout[im])[-500:], "compare": "normalised",
+                                       "what": "the same document with a different amount of padding gives a different result: a "
+                                               "name / multi-byte character falling on a refill point of the reader changes the parse"})
+                if ic is not None:
+                    ctx.count()
+                    if aout[ic] != aout[im]:
+                        nal_bad += 1
+                        if nal_bad <= 4:
+                            ctx.violation("chunk-dependence", {"requests": [alines[im], alines[ic]], "one_shot": aout[im][-500:],
+                                                               "other": aout[ic][-500:], "kind": label,
+                                                               "what": "same document, different read sizes: different dump"})
+    # ICU transcoders (outside the proved contract: correspondence only): block-wise decoding = decoding at once, for every
+    # split position of a byte string
+    xl = []
+    for en, cd, run in icu_ok:
+        for t in (run * 3, "a" + run + "b\r\n" + run, run[:3] + "<x>" + run[3:]):
+            xl.append("xcsplit %s %s" % (en, hx(t.encode(cd))))
+    nx_bad = 0
+    if xl:
+        rcx, xo, _ = run_bin(xh, xl, env=henv, timeout=300)
+        for rq, o in zip(xl, xo):
+            ctx.count()
+            if not o.startswith("ok"):
+                nx_bad += 1
+                if nx_bad <= 2:
+                    ctx.violation("icu-prefix-stability", {"request": rq, "impl": o, "what": "ICU transcoder: decoding a byte string "
+                                                           "in two blocks differs from decoding it at once"})
+        if rcx != 0 or len(xo) != len(xl):
+            ctx.violation("harness-crash", {"what": "harness crashed on xcsplit requests", "rc": rcx})
+    ctx.coverage["alignment_names_icu"] = {"groups": len(agroups), "parses": len(alines), "differing": nal_bad,
+                                           "icu_encodings": [e[0] for e in icu_ok], "icu_split_requests": len(xl), "icu_split_bad": nx_bad}
+    ctx.note("names/ICU alignment: %d groups, %d parses, %d differing; ICU encodings %s, %d split requests (%d bad), %.1fs"
+             % (len(agroups), len(alines), nal_bad, [e[0] for e in icu_ok], len(xl), nx_bad, time.time() - t3c))
     ctx.coverage["document_level"] = {"documents": len(groups), "parses": len(dlines) + nstdin, "documents_with_errors": nerr,
                                       "violations": dviol, "stdin_parses": nstdin, "kinds": dk}
     ctx.note("document-level: %d documents, %d parses, %d differing, %.1fs" % (len(groups), len(dlines) + nstdin, dviol,
